@@ -71,7 +71,7 @@ func (r Int64) MAX(a, b Int64) Scalar {
 func (c Int64) ABS(a Int64) Scalar {
   switch a.Sign() {
   case -1: c.NEG(a)
-  case 0: c.Reset()
+  case 0: c.SetFloat64(math.Abs(a.GetFloat64()))
   case 1: c.SET(a)
   }
   return c
